@@ -697,6 +697,49 @@ GROUPS['c09'] = lemmas_c09
 
 
 # ------------------------------------------------------------------------------------------------
+# C15-W1: resource records on solver-chosen fractional amounts (witness check, not a proof)
+# ------------------------------------------------------------------------------------------------
+def lemmas_c15(workdir):
+    """The CrossHair analyses compare the last resource_update record with the pool on integer amounts.  z3 (QF_FP) is asked
+    for fractional amounts a, b whose sum is inexact (the round trip (a+b)-a differs from b); the real ResourceManager is run
+    on them and after every operation the last record must equal (now, usage, capacity) exactly as the pool reports them."""
+    base = {'name': 'C15-W1 resource_update records on solver-chosen fractional amounts', 'solver': 'z3 %s (QF_FP, sat queries)' % z3.get_version_string(),
+            'queries': 0, 'solver_s': 0.0,
+            'assumptions': ['C15-W1 is a witness check: fractional amounts are chosen by the solver such that a+b is rounded; nothing is '
+                            'claimed for other fractional amounts (the CrossHair analyses cover integer amounts)']}
+    t0 = time.time()
+    rne, dbl = z3.RNE(), z3.Float64()
+    witnesses = []
+    for lo, hi in ((0.015625, 1.0), (1.0, 64.0)):
+        s = z3.Solver()
+        s.set('timeout', 60000)
+        a, b = z3.FP('a', dbl), z3.FP('b', dbl)
+        for x in (a, b):
+            s.add(z3.fpGEQ(x, z3.FPVal(lo, dbl)), z3.fpLEQ(x, z3.FPVal(hi, dbl)))
+        s.add(z3.Not(z3.fpEQ(z3.fpSub(rne, z3.fpAdd(rne, a, b), a), b)))
+        base['queries'] += 1
+        if s.check() == z3.sat:
+            m = s.model()
+            witnesses.append((_fp_value(m[a]), _fp_value(m[b])))
+    base['solver_s'] = round(time.time() - t0, 2)
+    witnesses += [(0.1, 0.2), (0.5, 0.25)]
+    bad = []
+    for a, b in witnesses:
+        v = _run_witness('C15', {'kind': 'c15_records'}, {'a': a, 'b': b, 'cap': 4 * (a + b)})
+        if v is not None:
+            bad.append(v)
+    r = dict(base, translator_validated_on=len(witnesses))
+    if bad:
+        r.update(status='violated', replay=bad[0]['replay'], name='C15-W1 ' + bad[0]['label'], detail=bad[0]['detail'])
+    else:
+        r.update(status='proved', detail=f'witness-ok (not a proof): records equal the pool after every operation for the amounts {witnesses}')
+    return [r]
+
+
+GROUPS['c15'] = lemmas_c15
+
+
+# ------------------------------------------------------------------------------------------------
 # C19-W1: solver-chosen floating-point intervals for the periodic sensor (witness check, not a proof)
 # ------------------------------------------------------------------------------------------------
 def lemmas_c19(workdir):
